@@ -169,3 +169,134 @@ def predicted_outputs(model, RET, Q, solver):
         except Exception:
             pass
     return out
+
+
+class MLemma:
+    def __init__(self, name, mode, fn, uses=(), timeout=60, tier="quick", models=None, tol=1e-4):
+        self.name, self.mode, self.fn, self.uses = name, mode, fn, list(uses)
+        self.timeout, self.tier = timeout, tier
+        self.models = models or {}
+        self.is_lemma = True
+        self.tol = tol
+        self.solver = "z3-" + ("Real" if mode == "real" else "Int")
+
+
+class Ctx:
+    """harness context of a math lemma: symbolic objects + calls into the extracted IR"""
+    def __init__(self, U, ev):
+        self.U, self.ev = U, ev
+        self.st = State()
+        self.fr = C([], "frame")
+        self.st.frame = self.fr
+        self.where = {}
+        self.called = []
+
+    def new(self, cname, name):
+        ty = self.U.ctype_to_ty(cname)
+        v = self.ev.alloc(self.st, ty, "in_" + name)
+        self.fr.keys.append(name)
+        self.st.heap[(self.fr.id, name)] = v
+        if isinstance(v, C):
+            self.where[v.id] = name
+            return View(self.st, v)
+        return v
+
+    def scalar(self, name, nonneg=False):
+        return self.ev.sym("in_" + name)
+
+    def const(self, v):
+        return self.ev.num(v)
+
+    def call(self, fname, *args):
+        f = self.U.tr.funcs.get(fname)
+        if f is None:
+            raise ExtractionBreak("math lemma: no extracted function '%s'" % fname)
+        if len(args) != len(f.params):
+            raise ExtractionBreak("math lemma: %s expects %d arguments" % (fname, len(f.params)))
+        cargs = []
+        for (pn, pt), a in zip(f.params, args):
+            if isinstance(a, View):
+                if pt.kind == "ptr":
+                    nm = self.where.get(a._c.id)
+                    if nm is None:
+                        # temporary aggregate (a call result): park it
+                        nm = "!tmp%d" % len(self.fr.keys)
+                        self.fr.keys.append(nm)
+                        self.st.heap[(self.fr.id, nm)] = a._c
+                        self.where[a._c.id] = nm
+                    cargs.append(Ptr(self.fr, nm))
+                else:
+                    cargs.append(a._c)
+            elif pt.kind == "ptr" and not isinstance(a, Ptr):
+                # scalar passed by const reference
+                nm = "!s%d" % len(self.fr.keys)
+                self.fr.keys.append(nm)
+                self.st.heap[(self.fr.id, nm)] = a if not isinstance(a, (int, float)) else self.ev.num(a)
+                cargs.append(Ptr(self.fr, nm))
+            else:
+                cargs.append(a if not isinstance(a, (int, float)) else self.ev.num(a))
+        self.called.append(fname)
+        saved = self.st.frame
+        r = self.ev.call(fname, cargs, self.st)
+        self.st.frame = saved
+        if isinstance(r, C):
+            return View(self.st, r)
+        if isinstance(r, Ptr):
+            t = r.get(self.st)
+            return View(self.st, t) if isinstance(t, C) else t
+        return r
+
+
+def run_mlemma(job):
+    U, ml = job["U"], job["spec"]
+    t0 = time.time()
+    res = dict(unit=U.name, target=ml.name, status="unknown", obligations=[], time=0.0, cmds=["z3 (python API %s) on VCs from lib/mathvc.py, mode=%s" % (z3.get_version_string(), ml.mode)],
+               reason="", is_lemma=True, replaced=[], functions=[], backend="z3-" + ml.mode, solver_time=0.0)
+    try:
+        ev = Evaluator(U.tr, ml.mode, models=dict(U.math_models, **ml.models))
+        ctx = Ctx(U, ev)
+        assumptions, goals = ml.fn(ctx)
+        res["functions"] = sorted(set(ctx.called))
+        assumptions = list(assumptions)
+        s = z3.Solver()
+        s.set("timeout", 20000)
+        for a in assumptions + ev.side:
+            s.add(a)
+        if s.check() == z3.unsat:
+            res["status"] = "vacuous"
+            res["reason"] = "lemma hypotheses + definitional side constraints are unsatisfiable"
+            return res
+        n_fail = n_unk = 0
+        allgoals = [("lemma", lab, g) for lab, g in goals.items()]
+        seen = set()
+        if job.get("check_side", True):
+            for (lab, g) in ev.oblig:
+                key = lab + str(g)
+                if key not in seen:
+                    seen.add(key)
+                    allgoals.append(("safety", lab, g))
+        for i, (kind, lab, g) in enumerate(allgoals):
+            if isinstance(g, (list, tuple)):
+                g = z3.And(*g)
+            stt, model, dt, solver = prove(ev, assumptions, g, timeout_ms=int(ml.timeout * 1000))
+            res["solver_time"] += dt
+            ob = dict(id="%s.math.%d" % (ml.name, i + 1), kind="math-" + kind, label=lab if kind == "lemma" else None,
+                      status={"proved": "SUCCESS", "refuted": "FAILURE", "unknown": "UNKNOWN"}[stt], desc="%s %s [z3 %s, %.2fs]" % (kind, lab, ml.mode, dt), line=0, fn=ml.name)
+            if stt == "refuted":
+                n_fail += 1
+                ob["cex"] = {d.name(): dict(data=str(model[d]), binary=None, type=ml.mode) for d in model.decls() if d.name().startswith("in_")}
+            elif stt == "unknown":
+                n_unk += 1
+            res["obligations"].append(ob)
+        if n_fail:
+            res["status"] = "refuted"
+        elif n_unk:
+            res["status"] = "unknown"
+            res["reason"] = "%d goals undecided by z3 within %ss" % (n_unk, ml.timeout)
+        else:
+            res["status"] = "proved"
+    except ExtractionBreak as ex:
+        res["status"] = "error"
+        res["reason"] = "mathvc: %s" % ex
+    res["time"] = time.time() - t0
+    return res
